@@ -26,6 +26,7 @@ THEOREMS = [
     "UBootText.sliceValue_printLine", "C19Q.hushWords_escape",
 ]
 LEAN_MODULES = ["TbotVerif.Props.C19", "TbotVerif.Props.C19Q"]
+AUX = ["C19Q"]   # quoting layer: real _hush_quote vs the Lean model
 QUICK_N, THOROUGH_N = 3000, 60000
 QUICK_BUDGET, THOROUGH_BUDGET = 40, 900
 CASE_WALL = 30
